@@ -38,9 +38,18 @@ LOOP_STEP_BUDGET = 60000      # kernel steps per closed loop (the longest sound 
 
 
 def prepare(ctx):
+    """regenerate lean/OnlVerif/Generated/Sink.lean (TCPSink: this property's obligation) from the source under $ONL_REPO.
+    `Generated/TcpCC.lean` - the window / RTO rules, which C17 owns - is only *used* here: the closed-loop model runs it, so it is
+    refreshed to follow the source, but a translator failure keeps the previous file and is C17's to report, and if the refreshed
+    file (or hand-written code over it) no longer compiles the framework falls back to the pinned copy (py2lean/scope.py)"""
     from py2lean import translate, elements
     _PREP['translated'] = elements.TRANSLATED['Sink']
-    _PREP['rewritten'] = translate.regenerate_all(only=('TcpCC', 'Sink'))
+    try:
+        used = translate.regenerate_all(only=('TcpCC',), tolerate=True)
+        _PREP['used_not_owned'] = {'TcpCC': {'rewritten': used, 'translator_failure_left_to_C17': dict(translate.FAILED)}}
+    except Exception as x:      # never this property's obligation
+        _PREP['used_not_owned'] = {'TcpCC': {'refresh_failed': repr(x)}}
+    _PREP['rewritten'] = translate.regenerate_all(only=('Sink',))
     _PREP['diff_vs_pinned'] = translate.diff_vs_pinned('Sink')
 
 
@@ -434,7 +443,8 @@ def run(ctx):
         'traces_validated_against_impl': len(cases) - len({json.dumps(d['case'], sort_keys=True) for d in disagreements}),
         'sender_observation_lines_compared': lines_compared,
         'operation_histogram': dict(sorted(hist.items())),
-        'translated': translate.TRANSLATED + _PREP.get('translated', []),
+        'translated': _PREP.get('translated', []),
+        'used_not_owned': dict(_PREP.get('used_not_owned', {}), translated_for_C17=translate.TRANSLATED),
         'generated_files_rewritten': _PREP.get('rewritten', []), 'generated_diff_vs_pinned': _PREP.get('diff_vs_pinned', []),
         'bridge_theorems': BRIDGES,
         'hand_modelled': ['TCPSink.packet_arrived (list.sort and the loop frame; its body is translated)',
